@@ -132,7 +132,7 @@ def vmap_mixture(ctx):
     unwrap = it.repo_function("flowjax.wrappers.unwrap")
     pu0 = [q for q in it.explore(lambda: unwrap(o)) if q.outcome == "return"]
     okc = len(pu0) == 1 and isinstance(pu0[0].value.log_normalized_weights, LA)
-    ctx.oblige("C11/VmapMixture.__init__/struct/unwraps_to_a_vector", okc, [], props, kind="struct", fn=fq)
+    ctx.oblige("C11/VmapMixture.__init__/struct/unwraps_to_a_vector", okc, [], props, kind="applicability", fn=fq)
     if okc:
         lw0 = pu0[0].value.log_normalized_weights
         # reproduces its constructor argument: log w_k - log sum_k w_k  (log-softmax of the log-weights), normalised
@@ -156,7 +156,7 @@ def vmap_mixture(ctx):
     u = pu[0].value
     lw = u.log_normalized_weights
     if not isinstance(lw, LA):
-        ctx.oblige("C11/VmapMixture/struct/unwrapped_weights_vector", False, [], props, kind="struct", fn=fq)
+        ctx.oblige("C11/VmapMixture/struct/unwrapped_weights_vector", False, [], props, kind="applicability", fn=fq)
         return
     ctx.oblige("C11/VmapMixture/post/weights_sum_to_one_for_any_raw_values", LSE(lw.arr) == 0, rng + pu[0].cond, props, fn=fq, replay=rp, inst=[shift_law],
                note="logsumexp of the unwrapped log-weights is 0 for every value of the trainable leaf")
